@@ -100,6 +100,7 @@ def candidates(finfo, lines_of, diags_by_file):
             inside = sorted([s for s in stmts if s["StartsLine"] and s["Start"] <= L <= s["End"]], key=lambda s: s["End"] - s["Start"])
             def above(label, node):
                 out.append((label, {"file": f, "before": node["Start"], "scope_node": {"start": node["Start"], "end": [node["EndLine"], node["EndCol"]], "kind": node["Kind"]}}, d))
+            nxt, prv = [], []
             if inside:
                 above("above-stmt", inside[0])
                 if len(inside) > 1:
@@ -111,6 +112,19 @@ def candidates(finfo, lines_of, diags_by_file):
                     above("above-next-sibling", nxt[0])
                 if prv:
                     above("above-prev-sibling", prv[0])
+            # a comment standing alone INSIDE a multi-line statement (before a continuation line): whatever its scope is taken
+            # to be, it cannot reach beyond that statement
+            starts = {s["Start"] for s in stmts}
+            for lab, S in (("inside-own-stmt", inside[0] if inside else None), ("inside-previous-stmt", prv[0] if (inside and prv) else None)):
+                if S is None or S["End"] <= S["Start"]:
+                    continue
+                # continuation lines on which an expression of S starts (a line that only closes something is excluded: a
+                # stand-alone comment that is the last thing of its block / argument list is left unspecified, DESIGN 5.1)
+                conts = [ln for ln in range(S["Start"] + 1, S["End"] + 1) if ln not in starts and str(ln) in fi["CodeLines"]
+                         and not re.sub(r"/\*.*?\*/", "", src[ln - 1]).strip().startswith(("}", ")", "]", "case ", "default:", "else"))]
+                if conts:
+                    ln = conts[len(conts) // 2] if lab == "inside-own-stmt" else conts[-1]
+                    out.append((lab, {"file": f, "before": ln, "weak_stmt": {"start": S["Start"], "end": [S["EndLine"], S["EndCol"]], "kind": S["Kind"]}}, d))
             if decl and decl["StartsLine"]:
                 above("above-decl", decl)
                 later = [x for x in decls if x["Start"] > decl["End"] and x["StartsLine"]]
@@ -190,6 +204,10 @@ def apply_comments(files, comments):
         elif "scope_node" in c:
             sn = c["scope_node"]
             c["scope"] = {"file": f, "from": [c["new_line"], 0], "to": [newline(f, sn["end"][0]), sn["end"][1]]}
+        elif "weak_stmt" in c:
+            ws = c["weak_stmt"]
+            c["weak"] = {"file": f, "from": [newline(f, ws["start"]), 0], "to": [newline(f, ws["end"][0]), ws["end"][1]]}
+            c["scope"] = {"file": f, "from": [-1, 0], "to": [-1, 0]}      # no claim about what is suppressed inside
     return newfiles, newline
 
 
@@ -198,11 +216,21 @@ def in_scope(c, f, line, col):
     return s["file"] == f and tuple(s["from"]) <= (line, col) <= tuple(s["to"])
 
 
+def in_weak(comments, f, line, col=1):
+    for c in comments:
+        w = c.get("weak")
+        if w and w["file"] == f and tuple(w["from"]) <= (line, col) <= tuple(w["to"]):
+            return True
+    return False
+
+
 def expected_from_text(base_diags, comments, newline):
     """the property's text applied to the diagnostics of the comment-free program (new coordinates)"""
     kept, removed = [], []
     for d in base_diags:
         nl = newline(d["file"], d["line"])
+        if in_weak(comments, d["file"], nl, d["col"]):
+            continue        # inside a statement that holds a stand-alone comment: unspecified, not compared
         hit = [c for c in comments if c["tokens"] and in_scope(c, d["file"], nl, d["col"]) and matches(c["tokens"], d["code"])]
         (removed if hit else kept).append((d["file"], nl, d["code"], d["message"].split("\n")[0]))
     return kept, removed
@@ -216,7 +244,7 @@ def judge_text_oracle(base_diags, var_diags, comments, newline):
     extra = []
     keptk = {k[:3] for k in kept}
     for k, d in sorted(have.items()):
-        if k in keptk:
+        if k in keptk or in_weak(comments, k[0], k[1], d["col"]):
             continue
         if d["code"] in ONCE:
             # the report may move to a later unsuppressed use: some removed diagnostic of the same file, code and message,
@@ -290,6 +318,8 @@ def evaluate(ctx, files0, comments_by_cfg_world=None, rng=None, per_world=4, fix
         m1 = worlds.model_analyze(ctx, dump, cfg, root1)
         missing, extra = judge_text_oracle(base[name]["diags"], r1["diags"], comments, newline)
         a_only, m_only = worlds.compare(r1["diags"], m1["diags"], PREF)
+        a_only = [k for k in a_only if not in_weak(comments, k[0], k[1], 10 ** 6) or not in_weak(comments, k[0], k[1], 0)]
+        m_only = [k for k in m_only if not in_weak(comments, k[0], k[1], 10 ** 6) or not in_weak(comments, k[0], k[1], 0)]
         res[name] = {"cfg": cfg, "base": base[name], "var": r1, "model": m1, "text_missing": missing, "text_extra": extra, "impl_only": a_only, "model_only": m_only,
                      "skel_rc": src, "skel_err": serr[-500:]}
     shutil.rmtree(d, ignore_errors=True)
@@ -311,7 +341,7 @@ def shrink_comments(ctx, files0, comments, still_bad):
 
 
 def strip(c):
-    return {k: v for k, v in c.items() if k in ("file", "kind", "text", "tokens", "codes_form", "form_class", "line", "before", "scope_node", "scope", "target") and not (k == "scope" and ("line" in c or "scope_node" in c))}
+    return {k: v for k, v in c.items() if k in ("file", "kind", "text", "tokens", "codes_form", "form_class", "line", "before", "scope_node", "weak_stmt", "scope", "target") and not (k == "scope" and ("line" in c or "scope_node" in c or "weak_stmt" in c))}
 
 
 def run(ctx):
